@@ -345,6 +345,11 @@ def watercare_cmd(plat, c, l, base):
         from geckolib.const import GeckoConstants
         w = World(sx, plat, c, l, base)
         wc = w.facade.water_care
+        # what the client believes the mode to be (from the last poll or its own last command): nothing yet, or any
+        # mode - the spa's keypad may have changed it since, so the command is sent whatever the belief
+        if sx.choice("client_has_a_belief", 2):
+            wc.change_watercare_mode(sx.int_("believed_mode", 0, 4))
+        believed = wc.active_mode
         seen = []
         wc.watch(lambda *a: seen.append(a))
         if sx.choice("as_string", 2):
@@ -360,7 +365,8 @@ def watercare_cmd(plat, c, l, base):
         sx.check((content[5] >= 1) & (content[5] <= 191), "cmd.watercare.protocol-range-sequence")
         sx.check(content[6] == mode, "cmd.watercare.mode-byte")
         sx.check(wc.mode == mode, "cmd.watercare.mode-reads-back")
-        sx.check(len(seen) == 1, "cmd.watercare.change-notified-once")
+        from sx.core import Ite
+        sx.check(len(seen) == (1 if believed is None else Ite(believed == mode, 0, 1)), "cmd.watercare.change-notified-once")
     return scenario
 
 
